@@ -5,10 +5,23 @@ From OP Require Import lib.Obs model.Eng model.EngRun.
 Import ListNotations.
 Open Scope Z_scope.
 
-Definition input := EngRun.input.
-Definition output := EngRun.output.
-Definition run := EngRun.run.
-Definition out_eqb := EngRun.out_eqb.
+(* second stream: method TEXTS (and injected snippets) run on the real engine; only what every tick shows is observed *)
+Record ttick := { tt_raised : bool;          (* Engine.tick raised *)
+                  tt_error : bool;           (* the engine is in the error state *)
+                  tt_paused : bool; tt_status_error : bool;
+                  tt_failed : bool;          (* the method state lists a failed line (or the failing code was injected) *)
+                  tt_stopped : bool }.
+Record tcase := { tc_stop_at : option nat }. (* the tick before which the user presses Stop *)
+Inductive input := IEng (i : EngRun.input) | IText (c : tcase).
+Inductive output := OEng (o : EngRun.output) | OText (l : list ttick).
+(* for a text the model only says: no tick raises (Engine.tick is total in the model) *)
+Definition run (i : input) : output := match i with IEng x => OEng (EngRun.run x) | IText _ => OText [] end.
+Definition out_eqb (m o : output) : bool :=
+  match m, o with
+  | OEng a, OEng b => EngRun.out_eqb a b
+  | OText _, OText l => forallb (fun t => negb (tt_raised t)) l
+  | _, _ => false
+  end.
 
 Definition flag (v : view) (k : nat) : bool := nth k (v_flags v) false.
 
@@ -28,7 +41,7 @@ Fixpoint after_error (evs : list ev) (seen_err : bool) (clean : bool) : bool * b
      paused, Method Status Error, and System State Paused (or Restarting, when a Restart queued earlier began in the same tick);
    - responsiveness: once the user's Stop has been accepted the engine is Stopped within `patience` ticks *)
 Definition patience : nat := 4.
-Fixpoint walk (os : list op) (vs : output) (deadline : option nat) : bool :=
+Fixpoint walk (os : list op) (vs : EngRun.output) (deadline : option nat) : bool :=
   match os, vs with
   | [], [] => true
   | o :: os', v :: vs' =>
@@ -49,4 +62,21 @@ Fixpoint walk (os : list op) (vs : output) (deadline : option nat) : bool :=
   | _, _ => false
   end.
 
-Definition holds_b (i : input) (o : output) : bool := walk (snd i) o None.
+(* texts: no tick raises; while the engine is in the error state (and Stop has not been pressed) the run is paused with
+   Method Status Error and the failing instruction is marked failed; after Stop the engine is Stopped within `patience` ticks *)
+Fixpoint twalk (k : nat) (stop_at : option nat) (l : list ttick) : bool :=
+  match l with
+  | [] => true
+  | t :: l' =>
+      negb (tt_raised t)
+      && (let stop_pressed := match stop_at with Some s => Nat.leb s k | None => false end in
+          if tt_error t && negb stop_pressed then tt_paused t && tt_status_error t && tt_failed t else true)
+      && (match stop_at with Some s => if Nat.leb (s + patience) k then tt_stopped t else true | None => true end)
+      && twalk (Datatypes.S k) stop_at l'
+  end.
+Definition holds_b (i : input) (o : output) : bool :=
+  match i, o with
+  | IEng x, OEng y => walk (snd x) y None
+  | IText c, OText l => twalk 0 (tc_stop_at c) l
+  | _, _ => false
+  end.
